@@ -248,6 +248,29 @@ def check_eval(ctx) -> None:
         ctx.ok("C07.eval", ev, "default", "without an argument nothing is knocked out", nontrivial=False)
     else:
         ctx.bad("C07.eval", ev, ev.node, f"GPR.eval() without knock-outs does not evaluate every rule to True: got {got}")
+    # a single identifier given as a string knocks out exactly that gene (identifiers may contain each other)
+    g1, g10, x = NameN("G1"), NameN("G10"), NameN("X")
+    bad_s = None
+    for t in (g1, AND(g1, x), OR(g1, g10), AND(g10, OR(g1, x))):
+        for ko in ("G1", "G10", "X", "G", "1", "zz"):
+            it = Interp(prog, (_Node,), [], {"isinstance": lambda it_, ev_, c, a, k: (isinstance(a[0], str) if [norm(y).split(".")[-1] for y in (c.args[1].elts if isinstance(c.args[1], ast.Tuple) else [c.args[1]])] == ["str"] else _isinstance(it_, ev_, c, a, k))}, globals_={"str": str, "list": list, "set": set})
+            it.missing_attr_raises = True
+            g = GPRN(t)
+            g._it = it
+            n_cases += 1
+            try:
+                got = ("value", g.eval(ko))
+            except EvalRaise as exc:
+                got = ("raise", exc.exc_type)
+            except Unknown as exc:
+                raise AnalysisError(f"C07.eval: GPR.eval cannot be evaluated with a string argument: {exc}")
+            want = truth(t, {ko})
+            if got != ("value", want) and bad_s is None:
+                bad_s = f"rule `{show(t)}` with the single gene {ko!r} given as a string {'raises ' + got[1] if got[0] == 'raise' else 'gives ' + repr(got[1])}, knocking out exactly {ko!r} gives {want} (a string is one identifier, not a collection of characters or substrings)"
+    if bad_s:
+        ctx.bad("C07.eval", ev, ev.node, bad_s)
+    else:
+        ctx.ok("C07.eval", ev, "string argument", "a string argument knocks out exactly the gene of that identifier (evaluated, identifiers containing each other)")
     # anything that is no and/or rule raises instead of yielding a truth value
     for label, t in (("an operator other than and/or", BoolOpN(BitXorN(), [a, b])), ("a node that is no rule node", UnaryN(a)), ("a node that is no rule node", AND(a, UnaryN(b)))):
         got = run(t, set(), False)
